@@ -7,16 +7,16 @@ PY = "/venv/bin/python"
 CLAIMED = {
  "C03": ("§6 C03, §12.1", "H,R,F", "seeded history simulation (incl. fits interrupted at a drawn line event and then repeated, forced eigensolver failures) + postcondition oracle after every successful fit"),
  "C04": ("§6 C04, §12.1", "H", "seeded history simulation against a threshold-history reference model (last writer per handle, across queries, failed writers, restarts and other handles) and an independent evaluation of the learned distance"),
- "C05": ("§6 C05", "F,H", "seeded simulation with fault injection at the preprocessor seam; twin-estimator reference"),
+ "C05": ("§6 C05", "F,H", "seeded simulation with fault injection at the preprocessor seam (callable point store answering as ndarray, mixed-dtype table, nested list or tuple; k-th-call faults; caller-side edits); twin-estimator reference"),
  "C07": ("§6 C07, §12.1", "R,H", "seeded simulation of the PRNG draw stream (integer seeds, recorded and scripted draw programs), ambient state and call histories on one live Constraints object; soundness predicates over returned constraints"),
  "C08": ("§6 C08, §12.1", "R,H", "seeded simulation of PRNG streams/ambient state/earlier fits; differential reference (base learner on oracle-formed constraints from the Constraints output) and unlabeled-points-moved repetition"),
  "C09": ("§6 C09, §12.1", "R,F", "seeded simulation of the eigensolver seams (ARPACK start vector, forced non-convergence, forced failure of the dense solver: all three links of LFDA's fallback chain; forced failure of Covariance's pseudo-inverse) against O(n^2) reference formulas"),
  "C13": ("§6 C13, §12.1", "F,R,H", "seeded simulation with fault injection at the graphical-lasso seam and earlier fits of the same object; lower-objective witness from an independent solver"),
  "C15": ("§6 C15", "R", "seeded simulation with recorded and scripted PRNG draw programs and fault injection at the local-LDA seam against a reference dual-averaging model"),
  "C16": ("§6 C16", "H,F", "seeded history simulation; per-instance brute force over all cut-offs; empty seam trace before rejection"),
- "C17": ("§6 C17, §12.1", "H,R,F", "seeded history simulation (API histories, pickle restarts, ambient perturbation, caller-side buffer / store / label edits, shared stores and arrays, crash points: fits interrupted at drawn line events, crash-point sweeps and a per-batch ENUMERATION of the first / middle / last line event of every function of every estimator's fit) against a fresh-object replay reference model computed in a pristine process"),
+ "C17": ("§6 C17, §12.1", "H,R,F", "seeded history simulation (API histories, pickle restarts, ambient perturbation, caller-side buffer / store / label edits, shared stores and arrays, crash points: fits interrupted at drawn line events, crash-point sweeps and a per-batch ENUMERATION of the first / middle / last line event of every function of every estimator's fit) against a fresh-object replay reference model computed in a pristine process (forked before any history; one reference in twenty in a brand-new interpreter with another hash salt)"),
  "C18": ("§6 C18, §12.1", "H", "exhaustive (estimator x parameter) sweep + seeded set_params/clone/pickle-restart/failed-fit/interrupted-fit histories"),
- "C20": ("§6 C20", "R,F", "seeded simulation of seeds/ambient state and Cholesky/eigen fallback paths; numpy reference linear algebra"),
+ "C20": ("§6 C20", "R,F", "seeded simulation of seeds/ambient state/process restarts ('random' recomputed in a fresh interpreter with another hash salt) and Cholesky/eigen fallback paths; numpy reference linear algebra"),
 }
 NA = {
  "C01": "pure function of (learned matrix, query points): no schedule, PRNG stream, clock, history or fault can change it; a simulator would only sample inputs (DESIGN §7)",
